@@ -5,7 +5,8 @@
    The persist theorems hold for EVERY environment [E] (Unicode identifier tables, Decimal
    parser, class table, importable callables): these are oracle arguments, not assumptions. *)
 From Coq Require Import ZArith List Bool Lia Strings.String.
-From VL Require Import Model.Persist Proofs.Persist_proofs.
+From Coq Require Import QArith.
+From VL Require Import Model.Persist Proofs.Persist_proofs Model.BallotFile Proofs.BallotFile_proofs.
 Import ListNotations.
 Open Scope string_scope.
 Open Scope Z_scope.
@@ -102,6 +103,66 @@ Definition example_value : pval :=
 Example C19_example_representable : representable env0 example_value = true.
 Proof. vm_compute. reflexivity. Qed.
 
+(* ------------------------------------------------------------------ BLT files (token level) *)
+
+(* ranked ballots without shared ranks with their weights, the seat count, candidate names, withdrawn
+   flags and title, written by dump_lines, load back unchanged (identities replaced by positions):
+   for EVERY well-formed election - any number of candidates and ballots *)
+Theorem C19_blt_roundtrip : forall e x, wf_election e = true -> expected e = Some x ->
+  exists ls, dump_lines false e = DumpOk ls /\ load_lines false false ls = Ok x.
+Proof. exact blt_roundtrip. Qed.
+
+(* on EVERY list of token lines the parser returns data or BLTParseError - no other exception *)
+Theorem C19_blt_parse_total : forall oneplus ls,
+  (exists x, load_lines false oneplus ls = Ok x) \/ load_lines false oneplus ls = ParseError.
+Proof.
+  intros op ls. pose proof (load_lines_total op ls) as H.
+  destruct (load_lines false op ls) as [x| |e]; [left; exists x; reflexivity|right; reflexivity|contradiction].
+Qed.
+
+(* a non-trivial well-formed election: duplicate names, a withdrawn first candidate, Fraction weight, title *)
+Definition s_ann : str := Eval compute in codes "Ann Bee".
+Definition example_election : election :=
+  ([([2; 1]%positive, 3 # 2); ([3]%positive, 2 # 1); ([]%list, 1 # 1)], 2,
+   [(1%positive, s_ann, true); (2%positive, s_ann, false); (3%positive, s_b, true)], Some s_a).
+Example C19_example_election_wf : wf_election example_election = true.
+Proof. vm_compute. reflexivity. Qed.
+Example C19_example_election_expected : exists x, expected example_election = Some x.
+Proof. eexists. vm_compute. reflexivity. Qed.
+
+(* The pinned tree (model flag pinned = true) violates both clauses; each witness is replayed on the
+   implementation by the corpus (corpus/C19/blt-*.json), the defects are repaired by fixes/C19-blt-*.diff *)
+Theorem C19_blt_roundtrip_pinned_refuted : exists e x ls,
+  wf_election e = true /\ expected e = Some x /\ dump_lines true e = DumpOk ls /\
+  load_lines true false ls = ParseError.
+Proof.   (* the first candidate withdrawn is written as 0, the end-of-ballots marker *)
+  eexists ([([1]%positive, 1 # 1)], 1, [(1%positive, s_a, true); (2%positive, s_b, false)], None).
+  eexists. eexists. vm_compute. repeat split.
+Qed.
+
+Theorem C19_blt_single_candidate_pinned_refuted : exists e x y ls,
+  wf_election e = true /\ expected e = Some x /\ dump_lines true e = DumpOk ls /\
+  load_lines true false ls = Ok y /\ List.length (snd (fst y)) = 7%nat.
+Proof.   (* one candidate "Ann Bee" reloads as seven one-character candidates *)
+  eexists ([]%list, 1, [(1%positive, s_ann, false)], None).
+  eexists. eexists. eexists. vm_compute. repeat split.
+Qed.
+
+Theorem C19_blt_parse_total_pinned_refuted :
+  (exists ls, load_lines true false ls = Crash BallotFile.E_INDEX) /\
+  (exists ls, load_lines true false ls = Crash E_OTHER) /\
+  (exists ls, load_lines true true ls = Crash E_VALUE) /\
+  (exists ls y, load_lines true false ls = Ok y /\ fst (fst (fst y)) = [([1; 2; 2], 1 # 1)]).
+Proof.
+  split; [|split; [|split]].
+  - exists [LToks [TNat 2; TNat 1]; LToks [TNat 1; TNat 3; TNat 0]; LToks [TNat 0]]. vm_compute. reflexivity.
+  - exists [LToks [TNat 2; TNat 1]; LToks [TBad; TNat 1; TNat 0]; LToks [TNat 0]]. vm_compute. reflexivity.
+  - exists [LToks [TNat 1; TNat 1]; LToks [TNum (1 # 2); TNat 1; TNat 0]; LToks [TNat 0]]. vm_compute. reflexivity.
+  - (* a 0 inside a ballot is silently read as the last candidate *)
+    exists [LToks [TNat 2; TNat 1]; LToks [TNat 1; TNat 1; TNat 0; TNat 2; TNat 0]; LToks [TNat 0]].
+    eexists. vm_compute. split; reflexivity.
+Qed.
+
 Print Assumptions C19_roundtrip.
 Print Assumptions C19_system_roundtrip.
 Print Assumptions C19_rejects_opaque.
@@ -110,3 +171,8 @@ Print Assumptions C19_rejects_reserved_key_refuted.
 Print Assumptions C19_rejects_set_refuted.
 Print Assumptions C19_rejects_lambda_refuted.
 Print Assumptions C19_rejects_closure_refuted.
+Print Assumptions C19_blt_roundtrip.
+Print Assumptions C19_blt_parse_total.
+Print Assumptions C19_blt_roundtrip_pinned_refuted.
+Print Assumptions C19_blt_single_candidate_pinned_refuted.
+Print Assumptions C19_blt_parse_total_pinned_refuted.
